@@ -232,6 +232,9 @@ pub fn a6_smawk_shape(c: &FragCase) -> Outcome {
     let size = widths.len();
     let bad = std::cell::RefCell::new(None::<String>);
     let calls = std::cell::Cell::new(0usize);
+    // LineNumbers memoises hop counts of m[..=i] across calls: sound only if an entry, once shown to the matrix function at an
+    // index <= i, never changes afterwards ("the finished prefix is final")
+    let finals = std::cell::RefCell::new(vec![None::<(usize, f64)>; size]);
     let table_ok = |m: &[(usize, f64)]| -> bool { !m.is_empty() && m[0].0 == 0 && m.iter().enumerate().skip(1).all(|(k, e)| e.0 < k) };
     let lw = c.widths.last().copied().unwrap_or(0.0);
     let minima = smawk::online_column_minima(0.0, size, |m, i, j| {
@@ -241,6 +244,18 @@ pub fn a6_smawk_shape(c: &FragCase) -> Outcome {
         }
         if !(i < j && j < size && i < m.len()) {
             return 0.0;
+        }
+        {
+            let mut fin = finals.borrow_mut();
+            for k in 0..=i {
+                match fin[k] {
+                    Some(v) if v.0 != m[k].0 && bad.borrow().is_none() => {
+                        *bad.borrow_mut() = Some(format!("back pointer of entry {} changed from {} to {} after it had been shown as part of a finished prefix (call i={} j={})", k, v.0, m[k].0, i, j));
+                    }
+                    Some(_) => {}
+                    None => fin[k] = Some(m[k]),
+                }
+            }
         }
         // a cost of the documented form (any total function would do for the shape)
         let line = widths[j] - widths[i] - c.frags[j - 1].ws + c.frags[j - 1].p;
